@@ -415,6 +415,8 @@ def each_run_starts_clean(ctx):
         for a in over:
             gcfg = CFG(g.node, m, g.module)
             rvn = a.targets[0].id
+            if not gcfg.ids(a):
+                continue        # unreachable (e.g. the else of a loop that never ends): C14.R1 speaks about that
             enters = [i for c in calls_in(g.node) if call_attr(c) == '_new_state' and c.args and src(c.args[0]) == rvn and
                       gcfg.reachable(gcfg.ids(a)[0], (gcfg.node_of(c) or [0])[0], exc=False) for i in gcfg.node_of(c)
                       if any(isinstance(x, ast.If) and rvn in src(x.test) for x in ancestors(c))]
